@@ -97,6 +97,9 @@ func genChain(k int) Case {
 		}
 	}
 	c := mkFn(t, probe...)
+	if why := chainByDefinition(st, t.Fn); why != "" && c.K == "fn" {
+		return Case{K: "skip", Fn: t.Fn, Raw: t.Raw, Args: probe, Why: why}
+	}
 	if c.K == "fn" {
 		c.Args = append([]string{}, shape...)
 		c.After = []string{st.obj, st.after}
@@ -126,4 +129,16 @@ func chainWrap(scope *slip.Scope, c *Case, form slip.List, withAfter bool) (slip
 		let = append(let, slip.List{slip.Symbol("common-lisp:ignore-errors"), code[0]})
 	}
 	return append(let, form), ""
+}
+
+// chainByDefinition: two-step histories the language defines as waiting for ever (not
+// findings): receiving from a channel the first step has drained and left open.
+func chainByDefinition(st *chainStep, fn string) string {
+	if st.obj == "channel" && st.after == "(dotimes (i 2) (channel-pop c09-o))" {
+		switch fn {
+		case "gi:channel-pop", "gi:range", "gi:select":
+			return "by-definition:receive-from-a-drained-open-channel"
+		}
+	}
+	return ""
 }
